@@ -514,14 +514,44 @@ func (i *interpreter) callBuiltin(caller *frame, fn *ssa.Builtin, args []value) 
 			arg0 := args[0].([]value)
 			return append(arg0, strBytes(args[1])...)
 		}
-		return append(args[0].([]value), args[1].([]value)...)
+		// struct / array elements are values: the appended ones are copies, not shared with the source
+		out := args[0].([]value)
+		for _, e := range args[1].([]value) {
+			out = append(out, cloneVal(e))
+		}
+		return out
 
 	case "copy":
 		src := args[1]
 		if isStrVal(src) {
 			src = strBytes(src)
 		}
-		return copy(args[0].([]value), src.([]value))
+		dst, sv := args[0].([]value), src.([]value)
+		n := len(dst)
+		if len(sv) < n {
+			n = len(sv)
+		}
+		if n > 0 && &dst[0] != &sv[0] {
+			// element-wise, in place (pointers into dst keep seeing its memory); overlapping
+			// ranges of one backing array are handled by the built-in below
+			if _, isStruct := sv[0].(structure); isStruct {
+				tmp := make([]value, n)
+				for k := 0; k < n; k++ {
+					tmp[k] = cloneVal(sv[k])
+				}
+				for k := 0; k < n; k++ {
+					assignInPlace(&dst[k], tmp[k])
+				}
+				return n
+			}
+			if _, isArr := sv[0].(array); isArr {
+				for k := 0; k < n; k++ {
+					dst[k] = cloneVal(sv[k])
+				}
+				return n
+			}
+		}
+		return copy(dst, sv)
 
 	case "close":
 		i.abort(abortUnsupported, "close(chan)")
@@ -653,4 +683,37 @@ func (i *interpreter) rangeIter(x value, site string) iter {
 		return &stringIter{b: strBytes(x)}
 	}
 	panic(fmt.Sprintf("cannot range over %T", x))
+}
+
+// cloneVal copies a value the way Go copies values: structs and arrays element-wise (they are
+// stored inline), everything else (pointers, slices, maps, interfaces) by reference.
+func cloneVal(v value) value {
+	switch x := v.(type) {
+	case structure:
+		out := make(structure, len(x))
+		for k := range x {
+			out[k] = cloneVal(x[k])
+		}
+		return out
+	case array:
+		out := make(array, len(x))
+		for k := range x {
+			out[k] = cloneVal(x[k])
+		}
+		return out
+	}
+	return v
+}
+
+// assignInPlace overwrites *dst with src, keeping the identity of struct storage.
+func assignInPlace(dst *value, src value) {
+	d, ok1 := (*dst).(structure)
+	s, ok2 := src.(structure)
+	if ok1 && ok2 && len(d) == len(s) {
+		for k := range d {
+			assignInPlace(&d[k], s[k])
+		}
+		return
+	}
+	*dst = src
 }
